@@ -12,6 +12,9 @@
 //                                                   hashes of `show(Some(params))` under a Mutex:
 //                                                   `<n> <sum hex16> <xor hex16>`
 //
+//   treethreadshash <threads> <states> <colors> <halt> <steps>   `treehash` under a pool with
+//                                                   that many threads (harness only)
+//
 // `tree_progs` is the collecting harvester of wrappers.rs: every program handed to the harvester is
 // pushed (as `show(Some(params))`) under a Mutex, duplicates preserved.
 use crate::instrs::Parse as _;
@@ -69,6 +72,27 @@ pub fn handle(op: &str, args: &[&str], _text: &str) -> Option<String> {
                 a.1 = a.1.wrapping_add(x);
                 a.2 ^= x;
             });
+            let (n, sum, xor) = get_val(acc);
+            Some(format!("{n} {sum:016x} {xor:016x}"))
+        },
+        ("treethreadshash", [t, s, c, h, l]) => {
+            // the same harvest as `treehash`, under a pool with that many threads
+            let params = (num(s), num(c));
+            let (hh, ll) = (num(h) != 0, num(l));
+            let acc = set_val((0_u64, 0_u64, 0_u64));
+            rayon::ThreadPoolBuilder::new()
+                .num_threads(num(t) as usize)
+                .build()
+                .unwrap()
+                .install(|| {
+                    build_tree(params, hh, ll, &|comp| {
+                        let x = fnv(&comp.show(Some(params)));
+                        let mut a = access(&acc);
+                        a.0 += 1;
+                        a.1 = a.1.wrapping_add(x);
+                        a.2 ^= x;
+                    });
+                });
             let (n, sum, xor) = get_val(acc);
             Some(format!("{n} {sum:016x} {xor:016x}"))
         },
